@@ -186,6 +186,14 @@ func execVersion(vec J, out *Writer) {
 		errt := vt.UnmarshalText([]byte(s))
 		rec["res_control"] = parseObs{ok: errc == nil, v: vc}.J()
 		rec["res_text"] = parseObs{ok: errt == nil, v: vt}.J()
+		// the caller's buffer is the caller's: what was parsed from it does not change when the buffer is used again
+		var va version.Version
+		buf := []byte(s)
+		erra := va.UnmarshalText(buf)
+		for i := range buf {
+			buf[i] = '7'
+		}
+		rec["res_text_after"] = parseObs{ok: erra == nil, v: va}.J()
 		// the same calls on receivers that already hold another version (a decoder loop reuses its struct)
 		dc := version.Version{Epoch: 7, Version: "9.9", Revision: "8"}
 		dt := dc
